@@ -269,7 +269,7 @@ impl fmt::Display for Problem {
         write!(f, "{}", self.interpretation)?;
 
         for (i, predicate) in self.predicates().into_iter().enumerate() {
-            let symbol = predicate.symbol;
+            let symbol = crate::formatting::fol::sigma_0::tptp::Functor(&predicate.symbol);
             // let input: String = repeat("general")
             //     .take(predicate.arity)
             //     .intersperse(" * ")
@@ -284,6 +284,7 @@ impl fmt::Display for Problem {
         }
 
         for (i, symbol) in self.symbols().into_iter().enumerate() {
+            let symbol = crate::formatting::fol::sigma_0::tptp::Functor(&symbol);
             writeln!(f, "tff(type_symbol_{i}, type, {symbol}: symbol).")?
         }
 
@@ -303,7 +304,8 @@ impl fmt::Display for Problem {
             writeln!(
                 f,
                 "tff(symbol_order_{i}, axiom, p__less__(f__symbolic__({}), f__symbolic__({}))).",
-                s[0], s[1]
+                crate::formatting::fol::sigma_0::tptp::Functor(&s[0]),
+                crate::formatting::fol::sigma_0::tptp::Functor(&s[1])
             )?
         }
 
